@@ -83,6 +83,10 @@ CHECKS = {
             "Idempotence (tree, bytes, no rejection of own output) is checked for every input from_ical accepts; exactness (the first parse denotes exactly the reference reader's tree, and the input is not rejected) for every input the strict RFC reader accepts. "
             "Mismatches are tolerated only if the observed tree equals the reference reader run with the documented placeholder defect model on a text that contains a trigger sequence (plus the documented TEXT normalisation acting on such a value).",
             "trusted: refmodel/tree.py (strict structure reader), rfc_text.parse_line, the property type table; END names must match BEGIN to count as well-formed", "3/C01"),
+    "C09": ("deviation-bounded exhaustive exploration from 14 well-formed seed calendars: every single fold position (SP/TAB), periodic folds, and every composition of {LF, BOM, str, trailing blank lines} x name re-casing (4 casings on 4 kinds of names) x refolding, parsed by the real code under both providers and compared differentially with the seed's parse",
+            "13 776 fold placements and 56 280 (thorough 258 048) rewrite compositions: the variant's canonical snapshot (incl. zone key and UTC offset of every date-time) and its re-serialisation must equal those of the base text. "
+            "Seeds cover every name-sensitive parse path (TZID on DTSTART/DTEND/DUE/RECURRENCE-ID/RDATE/EXDATE/FREEBUSY, custom VTIMEZONE defined before use, CATEGORIES, alarms, unknown components, non-ASCII long lines, quoted parameters).",
+            "trusted: the line re-caser/refolder in checks/c09.py; folds only between characters; str inputs starting with U+FEFF excluded", "3/C09"),
 }
 REASON_PENDING = "check under construction in this session; not claimed until it has been built, silenced on the unchanged tree and shown to detect a seeded change"
 ALL = [f"C{i:02d}" for i in range(1, 21)]
